@@ -49,7 +49,7 @@ func (r *recorder) emit(e ev) {
 
 var keyPool = []string{"a", "b", "c", "d", "", "a/b", "m~n", "0", "1", "-", "~1", "é", "<k>", `"q"`, " ", "k ", "\\", "x y", "01"}
 var strPool = []string{"", "s", "x", "<", "&>", "a/b", " ", "\"\\", "\x01\t\n", "é€😀", "~0~1", "null", "0", "\u20a9\u2228", "\u2028\u2029"}
-var numPool = []string{"0", "1", "2", "-1", "1.0", "1e400", "-0", "12345678901234567890123", "1E+2", "0.10", "1e-7", "100", "1.5", "-1.5e+3"}
+var numPool = []string{"0", "1", "2", "-1", "1.0", "1e400", "-0", "12345678901234567890123", "1234567890123456789012345678901234567890123456789012345678901234567890", "0.1234567890123456789012345678901234567890123456789012345678901234567890e-5", "1E+2", "0.10", "1e-7", "100", "1.5", "-1.5e+3"}
 
 func (r *recorder) pick(pool []string) string { return pool[r.rnd.Intn(len(pool))] }
 
